@@ -1,4 +1,5 @@
-\* thorough, hand-made files: rectangles over two bytes (pairs) and three bytes (single) of a 3-letter alphabet
+\* thorough (in addition to MC_CMap_rect_q.cfg): every rectangle over three bytes of a 3-letter alphabet,
+\* alone and with a single
 SPECIFICATION Spec
 CONSTANTS B = 3
   WITH_GAPS = TRUE
@@ -12,7 +13,7 @@ CONSTANTS B = 3
   TU_FROM_START = TRUE
   NOTDEF_OWN = TRUE
   Mode = "rect"
-  SpaceNames = {"s2w", "s3"}
+  SpaceNames = {"s3"}
   FamNames = {"cid", "tu1"}
   ChainSpaces = {}
   MaxTop <- TopFour
@@ -21,6 +22,6 @@ CONSTANTS B = 3
   Wide = FALSE
   WideSpaces = {}
   NotdefOn = FALSE
-  MaxRect = 2
+  MaxRect = 1
 INVARIANTS RectOK EmbedOK ReadableOK
 CHECK_DEADLOCK FALSE
